@@ -66,6 +66,20 @@ func c06Cfg(c *core.Ctx, idx int) wl.Cfg {
 		cfg.PlanKind = "sender-stalled-1.3s-in-writev"
 		return cfg
 	}
+	if idx%40 == 17 && cfg.Closer != 4 {
+		// messages handed over as io.Reader (ReadFrom: pooled 1024-byte chunks, several per message) accepted while the
+		// sender is held inside its first Writev; one writer, so that the chunks of one message stay together
+		cfg.Mode = mon.Blocking
+		cfg.Queue = []int{8, 64}[rng.Intn(2)]
+		cfg.Closer = 1
+		cfg.Wrap = nil
+		cfg.Writers, cfg.PerWriter = 1, 1+rng.Intn(3)
+		cfg.Sizes = []int{1025, 2500, 4097}
+		cfg.Entries = []int{wl.EReadFrom, wl.EReadFrom, wl.EReadFromEOF, wl.EWrite1}
+		cfg.Plan = []mon.Step{{At: "tV0", Occ: 1, Kind: mon.Gate, Until: "ret", UntilCount: cfg.PerWriter, Timeout: 50 * time.Millisecond}}
+		cfg.PlanKind = "readfrom-chunks-accepted-while-sender-in-writev"
+		return cfg
+	}
 	switch k := (idx / 20) % 6; k {
 	case 0, 1:
 		// decisive script: second payload accepted while the sender owns the queue;
